@@ -29,7 +29,9 @@ DIST_CALLS = {"quick": 400, "thorough": 20000}     # calls of N=50 draws each pe
 RULE = ("seeded distributions (1-5 keys over 1-3 topologies, positive weights ints/floats/1e-9..1e9, normalised or "
         "not), motif-size vectors incl. 1, N in 1..15 (thorough ..60), built directly and through the type "
         "dispatching entry point; draw schedules uniform / extreme floats (first/last key) / min,max,sticky "
-        "vertex choice / mix; aborts mid-sampling then reuse; non-trivial = the sample needed at least one "
+        "vertex choice / mix; aborts mid-sampling then reuse; 40% of the multi-sample histories edit the loader's distribution "
+        "IN PLACE between samples (all keys replaced / re-weighted / a heavy key added) and the next sample is judged against the "
+        "edited distribution; non-trivial = the sample needed at least one "
         "handshake patch or had N>=2; distinct = distinct execution digests.  Weighted-draw law: size-1 "
         "configurations (no patching) AND N=1 configurations that need the patch but whose drawn key can be read back from the "
         "output, key frequencies vs weights under the rigorous KL bound")
@@ -115,6 +117,27 @@ def generate(prng, tier, index):
         if prng.random() < 0.4:
             sc["abort_line"] = prng.randrange(0, 60)
         sc["samples"] = max(2, sc["samples"])
+    if sc["samples"] >= 2 and prng.random() < 0.4:
+        # history on ONE loader: between two samples the distribution it holds is edited IN PLACE through the loader's own
+        # attribute (a parameter sweep over weights, keys replaced) - the next sample must follow the edited distribution
+        edits = []
+        cur = [list(k) for k in keys]
+        for _ in range(sc["samples"] - 1):
+            how = prng.choice(("replace_all", "replace_all", "reweight", "add_key"))
+            if how == "replace_all":
+                new = [[x + 1 + i for x in k] for i, k in enumerate(cur)]
+                edits.append({"del": [list(k) for k in cur], "set": [[k, prng.choice((1.0, 0.5, 2.0))] for k in new]})
+                cur = new
+            elif how == "reweight":
+                edits.append({"del": [], "set": [[list(k), prng.choice((1e-300, 1.0, 5.0))] for k in cur]})
+            else:
+                k2 = [x + 2 for x in cur[-1]]
+                if k2 not in cur:
+                    edits.append({"del": [], "set": [[k2, 1e6]]})
+                    cur = cur + [k2]
+                else:
+                    edits.append({"del": [], "set": []})
+        sc["dist_edits"] = edits
     return sc
 
 
@@ -160,7 +183,7 @@ def explainable(entries, keyset, sizes):
     return True, ""
 
 
-def check_sample(sc, ctx, res, jdd, jdd_before, obj, tag):
+def check_sample(sc, ctx, res, jdd, jdd_before, obj, tag, caller_before=None):
     P = "C05"
     N, sizes = sc["N"], sc["sizes"]
     ntop = len(sizes)
@@ -185,7 +208,7 @@ def check_sample(sc, ctx, res, jdd, jdd_before, obj, tag):
     if any(e not in keyset for e in res):
         ctx.probe("patched_sample")
     # source untouched
-    ctx.expect(f"{P}.source", dict(obj.jdd) == jdd_before and jdd == jdd_before
+    ctx.expect(f"{P}.source", dict(obj.jdd) == jdd_before and jdd == (jdd_before if caller_before is None else caller_before)
                and list(obj.motif_sizes) == list(sizes),
                lambda: f"the distribution object / the caller's dictionary changed during sampling{tag}")
     return ok
@@ -228,7 +251,19 @@ def execute(sc, ctx):
     gsrc = ctx.source("gen", None)
     patched = False
     faulted = False
+    caller_before = None
     for r in range(sc.get("samples", 1)):
+        if r > 0 and sc.get("dist_edits") and r - 1 < len(sc["dist_edits"]):
+            ed = sc["dist_edits"][r - 1]
+            d = obj.jdd                                  # the loader's own distribution object, edited in place
+            for k in ed["del"]:
+                d.pop(tuple(k), None)
+            for k, w in ed["set"]:
+                d[tuple(k)] = w
+            if d:
+                jdd_before = dict(d)
+                caller_before = dict(jdd)
+                ctx.probe("distribution_edited_in_place_between_samples")
         abort_at = sc.get("abort_at") if (r == 0 and sc["variant"] == "faults") else None
         if abort_at is not None and sc.get("abort_line") is not None:
             st, res = ctx.call(src, obj.sample_jds_from_jdd, sc["N"], abort_at_line=sc["abort_line"], budget=20000, label="sample[interrupted at line]")
@@ -237,7 +272,7 @@ def execute(sc, ctx):
         tag = " (sample after an aborted one on the same object)" if faulted else (" (repeated sample)" if r else "")
         if st == "abort":
             faulted = True
-            ctx.expect(f"{P}.source", dict(obj.jdd) == jdd_before and jdd == jdd_before,
+            ctx.expect(f"{P}.source", dict(obj.jdd) == jdd_before and jdd == (jdd_before if caller_before is None else caller_before),
                        "the distribution changed after an aborted sample")
             continue
         if st != "ok":
@@ -245,7 +280,7 @@ def execute(sc, ctx):
             return
         if faulted:
             ctx.probe("sample_after_abort")
-        good = check_sample(sc, ctx, res, jdd, jdd_before, obj, tag)
+        good = check_sample(sc, ctx, res, jdd, jdd_before, obj, tag, caller_before)
         if any((not isinstance(e, tuple)) or e not in jdd_before for e in res):
             patched = True
         if good and sum(sum(e) for e in res) <= 20000:
@@ -265,6 +300,19 @@ def nontrivial(sc, ctx):
 
 
 def shrink(sc):
+    if sc.get("dist_edits"):
+        # keep keys / topologies fixed (the edits refer to them); shrink the rest
+        yield {k: v for k, v in sc.items() if k != "dist_edits"}
+        if sc["variant"] == "faults":
+            yield dict(sc, variant="clean")
+        if sc["samples"] > 2:
+            yield dict(sc, samples=2, dist_edits=sc["dist_edits"][:1])
+        if sc["N"] > 1:
+            yield dict(sc, N=sc["N"] // 2)
+            yield dict(sc, N=sc["N"] - 1)
+        if sc.get("policy"):
+            yield dict(sc, policy={})
+        return
     if sc["variant"] == "faults":
         yield dict(sc, variant="clean", samples=1)
     if sc.get("samples", 1) > 1 and sc["variant"] != "faults":
